@@ -854,6 +854,83 @@ func ruleNoEarlyExit(rule string) RuleFn {
 						}
 					}
 					c.Check(okInner, rule, sp.fn+": every provider of a scope is called", "inner loop exits only by error", "the loop over a scope's group providers can stop before all were called", pcalls[0], nil)
+					// (round 14) the loop over a scope's providers is entered for every scope: no path from
+					// the getGroupProviders call to the next scope goes around it, except on the edge that
+					// says the list is empty
+					if inner != nil {
+						for gp := range inLoop {
+							if !loop.body[gp.Block()] {
+								continue
+							}
+							emptyEdge := func(b *ssa.BasicBlock) int {
+								iff, ok := b.Instrs[len(b.Instrs)-1].(*ssa.If)
+								if !ok {
+									return -1
+								}
+								bo, ok := an.Resolve(iff.Cond).(*ssa.BinOp)
+								if !ok {
+									return -1
+								}
+								isLen := func(v ssa.Value) bool {
+									k, ok := an.Resolve(v).(*ssa.Call)
+									if !ok || len(k.Call.Args) != 1 {
+										return false
+									}
+									if bi, ok := k.Call.Value.(*ssa.Builtin); !ok || bi.Name() != "len" {
+										return false
+									}
+									return an.Resolve(k.Call.Args[0]) == ssa.Value(gp.(*ssa.Call))
+								}
+								isZero := func(v ssa.Value) bool {
+									k, ok := v.(*ssa.Const)
+									return ok && k.Value != nil && k.Value.ExactString() == "0"
+								}
+								if !(isLen(bo.X) && isZero(bo.Y)) && !(isLen(bo.Y) && isZero(bo.X)) {
+									return -1
+								}
+								switch bo.Op {
+								case token.EQL:
+									return 0
+								case token.NEQ:
+									return 1
+								case token.GTR:
+									if isLen(bo.X) {
+										return 1
+									}
+								case token.LSS:
+									if isLen(bo.Y) {
+										return 1
+									}
+								}
+								return -1
+							}
+							around := false
+							seen := map[*ssa.BasicBlock]bool{}
+							stack := []*ssa.BasicBlock{gp.Block()}
+							for len(stack) > 0 {
+								b := stack[len(stack)-1]
+								stack = stack[:len(stack)-1]
+								if seen[b] || b == inner.header {
+									continue
+								}
+								seen[b] = true
+								skip := emptyEdge(b)
+								for i, s := range b.Succs {
+									if i == skip {
+										continue
+									}
+									if s == loop.header {
+										around = true
+										continue
+									}
+									if loop.body[s] {
+										stack = append(stack, s)
+									}
+								}
+							}
+							c.Check(!around, rule, sp.fn+": the providers of every scope are asked, whatever the scope already holds", "every path from getGroupProviders to the next scope passes through the loop over the providers (or the list is empty)", "a path from getGroupProviders to the next enclosing scope goes around the loop that calls the providers: a scope judged 'already built' (by counting stored values, a memo, a flag) is skipped, and a constructor added to it after the first request never runs - its members are missing from every later request", gp, nil)
+						}
+					}
 				}
 			}
 		}
